@@ -615,6 +615,22 @@ pub fn run(run: &Arc<Run>) {
     proportion_sweep(run, seed, thorough);
     quantile_sweep(run, thorough);
     documented_panics(run);
+    // thorough: compare with the same sweep on the plain production build (informational)
+    if let Some(i) = run.cfg.extra.iter().position(|a| a == "--wrapping-summary") {
+        if let Some(path) = run.cfg.extra.get(i + 1) {
+            match std::fs::read_to_string(path).ok().and_then(|s| serde_json::from_str::<Value>(&s).ok()) {
+                Some(doc) => {
+                    let sigs: Vec<String> = doc["coverage"]["violation_signatures"].as_array().map(|a| a.iter().filter_map(|v| v["signature"].as_str().map(|s| s.to_string())).collect()).unwrap_or_default();
+                    run.extra(
+                        "wrapping_profile_run",
+                        json!({"profile": "wrapping (overflow-checks = false, debug-assertions = false)", "evaluations": doc["coverage"]["evaluations"], "violation_signatures_in_wrapping_build": sigs,
+                               "note": "verdict flips: signatures listed here that the checked build does not raise (or vice versa) exist only in one of the two builds"}),
+                    );
+                }
+                None => run.note("wrapping-profile summary unreadable; comparison skipped"),
+            }
+        }
+    }
     run.require(&[
         "class:empty",
         "class:singleton",
